@@ -60,17 +60,30 @@ def strip_comments(src):
     s = "".join(out)
     return re.sub(r"--.*", "", s)
 
-def scan_sources():
-    """forbidden tokens outside comments in every proof/model file; returns list of hits"""
+def import_closure(prop_id):
+    """files (relative module paths) transitively imported by Props/<id>.lean inside the project"""
+    seen, todo = [], [f"RarenaVerif.Props.{prop_id}"]
+    while todo:
+        mod = todo.pop()
+        if mod in seen:
+            continue
+        p = os.path.join(LEAN, *mod.split(".")) + ".lean"
+        if not os.path.exists(p):
+            continue
+        seen.append(mod)
+        for m in re.findall(r"^import\s+(RarenaVerif\.[A-Za-z0-9_.]+)", open(p).read(), re.M):
+            todo.append(m)
+    return seen
+
+def scan_sources(prop_id):
+    """forbidden tokens outside comments in every file the property's theorems depend on"""
     hits = []
-    for root, _, files in os.walk(os.path.join(LEAN, "RarenaVerif")):
-        for f in files:
-            if f.endswith(".lean"):
-                p = os.path.join(root, f)
-                body = strip_comments(open(p).read())
-                for m in SCAN_RE.finditer(body):
-                    line = body.count("\n", 0, m.start()) + 1
-                    hits.append(f"{os.path.relpath(p, LEAN)}:{line}:{m.group(0).strip()}")
+    for mod in import_closure(prop_id):
+        p = os.path.join(LEAN, *mod.split(".")) + ".lean"
+        body = strip_comments(open(p).read())
+        for m in SCAN_RE.finditer(body):
+            line = body.count("\n", 0, m.start()) + 1
+            hits.append(f"{os.path.relpath(p, LEAN)}:{line}:{m.group(0).strip()}")
     return hits
 
 def theorem_names(prop_id):
@@ -183,6 +196,7 @@ def case_lines(ops, start):
 # ----------------------------------------------------------------------------- monitors on implementation traces
 
 U32 = 1 << 32
+BUF_OPS = ("put", "get", "put_var", "get_var", "put_slice", "set_len", "align_to", "put_aligned", "putT")
 
 def parse_fl(s):
     if s is None or s == "[]":
@@ -215,6 +229,8 @@ def monitor_case(ops, obs, which):
     clones = 0
     prev = o0
     rewound = False
+    bufs = {}      # byte-buffer handle -> [off, cap, len]
+    lastput = None # (handle, op tokens, len before)
     def V(p, sig, msg, i):
         viol.append((p, sig, msg, i))
     for i in range(1, len(ops)):
@@ -301,6 +317,8 @@ def monitor_case(ops, obs, which):
                         elif kind == "none":
                             V("C10", "none-reuses", f"Freelist::None served [{boff},+{bcap}) below the cursor {pal}", i)
                     live[h] = (off, cap, boff, bcap, owned)
+                if op.startswith("alloc_bytes") or op.startswith("alloc_aligned"):
+                    bufs[h] = [off, cap, 0]
                 if need > 0 and (cap == 0):
                     pass
                 if need == 0:
@@ -357,6 +375,80 @@ def monitor_case(ops, obs, which):
                 s = sum(x[1] for x in pfl)
                 if int(o["val"]) != s or di != (pdi + s) % U32 or fl:
                     V("C20", "discard-freelist", f"returned {o['val']}, sum {s}, discarded {pdi}->{di}, list after {fl}", i)
+        if op in BUF_OPS and len(t) > 1 and t[1].isdigit() and int(t[1]) in bufs and r not in ("nohandle",):
+            h = int(t[1]); boff_, bcap_, blen = bufs[h]
+            nlen = int(o["len"]) if "len" in o else blen
+            W = {"u8":1,"i8":1,"u16":2,"i16":2,"u32":4,"i32":4,"u64":8,"i64":8,"usize":8,"isize":8,"u128":16,"i128":16}
+            if o.get("oo") == "0":
+                V("C14", "outside-write", f"{ops[i].strip()} changed bytes outside the buffer [{boff_},{boff_+bcap_})", i)
+            if r == "InsufficientBuffer":
+                if nlen != blen:
+                    V("C14", "failed-put-changes-len", f"{ops[i].strip()} failed but len {blen} -> {nlen}", i)
+                if op in ("put", "put_slice", "putT", "put_aligned") and o.get("mem") != prev.get("mem"):
+                    V("C14", "failed-put-writes", f"{ops[i].strip()} failed but memory changed", i)
+            elif r == "IncompleteBuffer":
+                if nlen != blen:
+                    V("C14", "failed-get-changes-len", f"{ops[i].strip()} failed but len {blen} -> {nlen}", i)
+            elif r == "ok":
+                if nlen > bcap_:
+                    V("C14", "len-exceeds-capacity", f"{ops[i].strip()}: len {nlen} > capacity {bcap_}", i)
+                if op == "put":
+                    if nlen != blen + W[t[2]]:
+                        V("C14", "put-len", f"{ops[i].strip()}: len {blen} -> {nlen}", i)
+                elif op == "get":
+                    if nlen + W[t[2]] != blen:
+                        V("C14", "get-len", f"{ops[i].strip()}: len {blen} -> {nlen}", i)
+                    if lastput and lastput[0] == h and lastput[1][0] == "put" and lastput[1][2:4] == t[2:4] and lastput[3] == i - 1:
+                        bits = 8 * W[t[2]]; v = int(lastput[1][4]); signed = t[2][0] == "i"
+                        inr = (-(1 << (bits - 1)) <= v < (1 << (bits - 1))) if signed else (0 <= v < (1 << bits))
+                        if inr and (int(o["val"]) != v or nlen != lastput[2]):
+                            V("C14", "roundtrip", f"put {lastput[1][2:]} then get returned {o['val']} len {nlen} (was {lastput[2]})", i)
+                elif op == "put_slice" or op == "putT":
+                    n = int(t[2]) if op == "put_slice" else int(t[3])
+                    if nlen != blen + n:
+                        V("C14", "put-len", f"{ops[i].strip()}: len {blen} -> {nlen}", i)
+                elif op == "put_var":
+                    if nlen != blen + int(o["n"]):
+                        V("C14", "put-len", f"{ops[i].strip()}: len {blen} -> {nlen} n={o['n']}", i)
+                elif op == "get_var":
+                    if lastput and lastput[0] == h and lastput[1][0] == "put_var" and lastput[1][2] == t[2] and lastput[2] == 0 and lastput[3] == i - 1:
+                        bits = 8 * W[t[2]]; v = int(lastput[1][3]); signed = t[2][0] == "i"
+                        inr = (-(1 << (bits - 1)) <= v < (1 << (bits - 1))) if signed else (0 <= v < (1 << bits))
+                        if inr and (int(o["val"]) != v or int(o["n"]) != lastput[4]):
+                            V("C14", "leb-roundtrip", f"put_var {lastput[1][2:]} (n={lastput[4]}) then get_var returned n={o['n']} val={o['val']}", i)
+                elif op == "set_len":
+                    if nlen != int(t[2]):
+                        V("C14", "set-len", f"{ops[i].strip()}: len {nlen}", i)
+                elif op in ("align_to", "put_aligned"):
+                    A_, S_ = int(t[2]), int(t[3])
+                    if S_ > 0 and o.get("po") not in (None, "dangling"):
+                        po = int(o["po"])
+                        if po % A_ != 0 or po < boff_ + blen or po > boff_ + bcap_ or (op == "put_aligned" and po + S_ > boff_ + bcap_):
+                            V("C14", "align", f"{ops[i].strip()}: pointer offset {po}, buffer [{boff_},{boff_+bcap_}) len {blen}", i)
+            if r == "ok" and op in ("put", "put_var"):
+                lastput = (h, t, blen, i, int(o.get("n", 0)))
+            bufs[h][2] = nlen
+        if op == "rd" and len(t) == 4:
+            Wd = {"u8":1,"i8":1,"u16":2,"i16":2,"u32":4,"i32":4,"u64":8,"i64":8,"u128":16,"i128":16}.get(t[1], 0)
+            off_ = int(t[3])
+            if r == "ok":
+                if off_ + Wd > al:
+                    V("C15", "reads-beyond-allocated", f"{ops[i].strip()} succeeded with allocated={al}", i)
+                elif o.get("val") != o.get("ref"):
+                    V("C15", "wrong-value", f"{ops[i].strip()} returned {o.get('val')}, bytes decode to {o.get('ref')}", i)
+            elif r == "OutOfBounds" and off_ + Wd <= al:
+                V("C15", "spurious-oob", f"{ops[i].strip()} refused with allocated={al}", i)
+        if op == "rd_var" and len(t) == 3:
+            off_ = int(t[2])
+            if r == "ok" and off_ + int(o.get("n", 0)) > al:
+                V("C15", "varint-beyond-allocated", f"{ops[i].strip()} consumed {o.get('n')} bytes with allocated={al}", i)
+            if r in ("ok", "Varint") and off_ >= al:
+                V("C15", "varint-beyond-allocated", f"{ops[i].strip()} read at/above allocated={al}", i)
+            if r == "OutOfBounds" and off_ < al:
+                V("C15", "spurious-oob", f"{ops[i].strip()} refused with allocated={al}", i)
+        if op == "slices" and r == "ok":
+            if o.get("val") != f"{al},{al-doff},{cp},{cfg.get('reserved')}":
+                V("C15", "slice-lengths", f"slices {o.get('val')} with allocated={al} data_offset={doff} capacity={cp}", i)
         # ---- C20 monotone (below 2^32)
         if op not in ("clear", "inc_discarded") and di < pdi and pdi + 0 < U32 - (1 << 20):
             V("C20", "decrease", f"discarded decreased {pdi} -> {di} at {ops[i].strip()}", i)
